@@ -342,6 +342,20 @@ func (w *World) execute(m *Machine, fn *ssa.Function) (end string) {
 		switch r := r.(type) {
 		case pathEnd:
 			end = r.reason
+			if strings.HasPrefix(end, "blocked") {
+				// every goroutine is blocked and no timer is pending: a deadlock of the target on a
+				// feasible path is an obligation like a panic
+				func() {
+					defer func() {
+						if x := recover(); x != nil {
+							if pe, ok := x.(pathEnd); ok && pe.reason == "violation-limit" {
+								end = pe.reason
+							}
+						}
+					}()
+					m.path.violation("blocked", "no-deadlock", r.reason+" @ "+m.stackString(), m)
+				}()
+			}
 		case targetPanic:
 			// An unrecovered panic of the target program on a feasible path.
 			func() {
